@@ -399,6 +399,44 @@ func c25Eval(c *ctx) {
 			}
 			a, b := h.Env.Query(q), h.Env.Query(&q2)
 			c.r.Case(len(a.Rows) > 0, fmt.Sprint("evalrt", hi, qi))
+			// a tree means the same at every stage: without a prefilter, the engine's answer (pruning by file and
+			// block filters, then row verification) is exactly the rows the tree is true of
+			if qi%2 == 0 {
+				qn := &bs.Query{Bloom: q.Bloom, Regex: q.Regex}
+				if qi%4 == 0 {
+					// degenerate nodes the constructors do not flatten away
+					e := pick(r, []bs.BloomExpression{bs.And(), bs.Or(bs.And(), bs.Token("no-such-token-anywhere")), bs.And(bs.Or(bs.And(), bs.Field("no.such.field")), bs.And()), bs.Or()})
+					qn = &bs.Query{Bloom: &bs.BloomQuery{Expression: &e}}
+					if qi%8 == 0 {
+						re := bs.RegexAnd()
+						qn = &bs.Query{Regex: &bs.RegexQuery{Expression: &re}}
+					}
+				}
+				want := map[int]int{}
+				bad := false
+				for _, rb := range rowBytes {
+					m, _, merr := bs.VerifMatchRow(rb, qn.Bloom, qn.Regex, h.TM.fn)
+					if merr != nil {
+						bad = true
+						break
+					}
+					if m {
+						var probe struct {
+							ID int `json:"_id"`
+						}
+						json.Unmarshal(rb, &probe)
+						want[probe.ID]++
+					}
+				}
+				if !bad {
+					out := h.Env.Query(qn)
+					c.r.Hit("c25.engine-vs-tree-meaning")
+					if got := idsOf(out.Rows); out.Err == nil && fmt.Sprint(got) != fmt.Sprint(want) {
+						qj, _ := json.Marshal(qn)
+						c.r.Add(Finding{Kind: "violation", Check: "tree-meaning-differs-by-stage", Detail: fmt.Sprintf("the engine returns ids %v for a query without prefilter, the tree evaluated row by row is true of %v: pruning and row verification read the tree differently", trunc(fmt.Sprint(got), 200), trunc(fmt.Sprint(want), 200)), Replay: map[string]any{"ops": h.Ops, "json": string(qj), "tokenizer": h.TM.name}})
+					}
+				}
+			}
 			if fmt.Sprint(sortedIDs(a.Rows)) != fmt.Sprint(sortedIDs(b.Rows)) || (a.Err == nil) != (b.Err == nil) {
 				c.r.Add(Finding{Kind: "violation", Check: "query-roundtrip-results", Detail: "a query and its JSON round trip return different results", Replay: map[string]any{"ops": h.Ops, "json": string(data)}})
 			}
